@@ -64,9 +64,11 @@ MkDecl(P, i) ==
         ELSE [Blank EXCEPT !.kind = "copy", !.name = nm, !.ins = <<F(Pick({"d1", "s3"} \ copied, R(7)))>>,
                            !.xdeps = xd,
                            !.dist = (Below(R(8), 4) # 0)])
-  ELSE IF c = 10 THEN (IF Targets(P) = {} THEN exe
-                       ELSE [Blank EXCEPT !.kind = "alias", !.name = nm, !.deps = PickN(Targets(P), 1 + Below(R(3), 2), 40)])
-  ELSE IF c = 11 THEN [Blank EXCEPT !.kind = "cmd", !.name = nm, !.deps = PickN(Targets(P), Below(R(3), 2), 40)]
+  \* (a dual-use library is no file: alias() and extra_deps= refuse it)
+  ELSE IF c = 10 THEN (IF Targets(P) \ Kinds(P, {"dlib"}) = {} THEN exe
+                       ELSE [Blank EXCEPT !.kind = "alias", !.name = nm,
+                                          !.deps = PickN(Targets(P) \ Kinds(P, {"dlib"}), 1 + Below(R(3), 2), 40)])
+  ELSE IF c = 11 THEN [Blank EXCEPT !.kind = "cmd", !.name = nm, !.deps = PickN(Targets(P) \ Kinds(P, {"dlib"}), Below(R(3), 2), 40)]
   \* test([exe, other built file]): every built file named on the test's command line is a member of `tests`
   ELSE IF c = 12 /\ Kinds(P, {"test"}) # {} /\ Below(R(17), 3) = 0 /\ filesT # {}
        THEN [Blank EXCEPT !.kind = "tdeps", !.name = nm, !.deps = PickN(filesT, 1 + Below(R(3), 2), 40)]
